@@ -59,6 +59,11 @@ pub fn boundary_len(rng: &mut ChaCha20Rng, big: bool) -> usize {
 }
 pub fn rscript(rng: &mut ChaCha20Rng, big: bool) -> Script { { let n = boundary_len(rng, big); Script::from(rbytes(rng, n)) } }
 pub fn rstack(rng: &mut ChaCha20Rng, big: bool) -> Vec<Vec<u8>> {
+    // rarely: element counts on both sides of the one-byte varint limit (then with tiny elements)
+    if rng.gen_range(0..14) == 0 {
+        let n = pk!(rng, [0xfcusize, 0xfd, 0xfe, 0x100]);
+        return (0..n).map(|_| { let l = rng.gen_range(0..3); rbytes(rng, l) }).collect();
+    }
     let n = pk!(rng, [0usize, 0, 1, 2, 3, 5]);
     (0..n).map(|_| { let l = boundary_len(rng, big); rbytes(rng, l) }).collect()
 }
@@ -134,8 +139,11 @@ pub fn rtxout(rng: &mut ChaCha20Rng, f: Feat, tags: &mut Vec<String>) -> TxOut {
     o
 }
 pub fn rtx(rng: &mut ChaCha20Rng, f: Feat, tags: &mut Vec<String>) -> Transaction {
-    let nin = pk!(rng, [0usize, 1, 1, 2, 3, 5]);
-    let nout = pk!(rng, [0usize, 1, 1, 2, 3, 6]);
+    let mut nin = pk!(rng, [0usize, 1, 1, 2, 3, 5]);
+    let mut nout = pk!(rng, [0usize, 1, 1, 2, 3, 6]);
+    // rarely: input / output counts on both sides of the one-byte varint limit
+    match rng.gen_range(0..40) { 0 => nin = pk!(rng, [0xfcusize, 0xfd, 0x100]), 1 => nout = pk!(rng, [0xfcusize, 0xfd, 0x100]), _ => {} }
+    let f = if nin > 100 || nout > 100 { Feat { big: false, ..f } } else { f };
     let mut f = f;
     match rng.gen_range(0..6) { 0 => f.no_witness = true, _ => {} }
     let wit_side = rng.gen_range(0..4); // 1: only inputs, 2: only outputs
@@ -220,4 +228,79 @@ pub fn repo_hex_vectors() -> Vec<Vec<u8>> {
     }
     out.sort(); out.dedup();
     out
+}
+
+// ---------------------------------------------------------------------------------------------------------------
+// Reference encoder: an independent, deliberately naive serializer of in-memory transactions written against the
+// consensus format (not calling any of the crate's Encodable impls), so that an encoder regression in the crate cannot
+// hide behind inputs that were produced by that same encoder.
+fn ref_varint(out: &mut Vec<u8>, n: u64) {
+    if n < 0xfd { out.push(n as u8); }
+    else if n <= 0xffff { out.push(0xfd); out.extend_from_slice(&(n as u16).to_le_bytes()); }
+    else if n <= 0xffff_ffff { out.push(0xfe); out.extend_from_slice(&(n as u32).to_le_bytes()); }
+    else { out.push(0xff); out.extend_from_slice(&n.to_le_bytes()); }
+}
+fn ref_bytes(out: &mut Vec<u8>, b: &[u8]) { ref_varint(out, b.len() as u64); out.extend_from_slice(b); }
+fn ref_value(out: &mut Vec<u8>, v: &Value) {
+    match v { Value::Null => out.push(0), Value::Explicit(n) => { out.push(1); out.extend_from_slice(&n.to_be_bytes()); } Value::Confidential(c) => out.extend_from_slice(&c.serialize()) }
+}
+fn ref_asset(out: &mut Vec<u8>, v: &Asset) {
+    match v { Asset::Null => out.push(0), Asset::Explicit(a) => { out.push(1); out.extend_from_slice(&a.to_byte_array()); } Asset::Confidential(g) => out.extend_from_slice(&g.serialize()) }
+}
+fn ref_nonce(out: &mut Vec<u8>, v: &Nonce) {
+    match v { Nonce::Null => out.push(0), Nonce::Explicit(b) => { out.push(1); out.extend_from_slice(&b[..]); } Nonce::Confidential(k) => out.extend_from_slice(&k.serialize()) }
+}
+fn ref_stack(out: &mut Vec<u8>, s: &[Vec<u8>]) { ref_varint(out, s.len() as u64); for e in s { ref_bytes(out, e); } }
+pub fn ref_txin(out: &mut Vec<u8>, i: &TxIn) {
+    let has_issuance = !(i.asset_issuance.amount.is_null() && i.asset_issuance.inflation_keys.is_null());
+    let mut vout = i.previous_output.vout;
+    if i.is_pegin { vout |= 1 << 30; }
+    if has_issuance { vout |= 1 << 31; }
+    out.extend_from_slice(&i.previous_output.txid.to_byte_array());
+    out.extend_from_slice(&vout.to_le_bytes());
+    ref_bytes(out, i.script_sig.as_bytes());
+    out.extend_from_slice(&i.sequence.0.to_le_bytes());
+    if has_issuance {
+        out.extend_from_slice(i.asset_issuance.asset_blinding_nonce.as_ref());
+        out.extend_from_slice(&i.asset_issuance.asset_entropy);
+        ref_value(out, &i.asset_issuance.amount);
+        ref_value(out, &i.asset_issuance.inflation_keys);
+    }
+}
+pub fn ref_txout(out: &mut Vec<u8>, o: &TxOut) {
+    ref_asset(out, &o.asset); ref_value(out, &o.value); ref_nonce(out, &o.nonce); ref_bytes(out, o.script_pubkey.as_bytes());
+}
+pub fn ref_tx(tx: &Transaction) -> Vec<u8> {
+    let mut out = Vec::new();
+    let in_wit_empty = |w: &TxInWitness| w.amount_rangeproof.is_none() && w.inflation_keys_rangeproof.is_none() && w.script_witness.is_empty() && w.pegin_witness.is_empty();
+    let out_wit_empty = |w: &TxOutWitness| w.surjection_proof.is_none() && w.rangeproof.is_none();
+    let has_wit = tx.input.iter().any(|i| !in_wit_empty(&i.witness)) || tx.output.iter().any(|o| !out_wit_empty(&o.witness));
+    out.extend_from_slice(&tx.version.to_le_bytes());
+    out.push(has_wit as u8);
+    ref_varint(&mut out, tx.input.len() as u64);
+    for i in &tx.input { ref_txin(&mut out, i); }
+    ref_varint(&mut out, tx.output.len() as u64);
+    for o in &tx.output { ref_txout(&mut out, o); }
+    out.extend_from_slice(&tx.lock_time.to_consensus_u32().to_le_bytes());
+    if has_wit {
+        for i in &tx.input {
+            ref_bytes(&mut out, &i.witness.amount_rangeproof.as_ref().map(|p| p.serialize()).unwrap_or_default());
+            ref_bytes(&mut out, &i.witness.inflation_keys_rangeproof.as_ref().map(|p| p.serialize()).unwrap_or_default());
+            ref_stack(&mut out, &i.witness.script_witness);
+            ref_stack(&mut out, &i.witness.pegin_witness);
+        }
+        for o in &tx.output {
+            ref_bytes(&mut out, &o.witness.surjection_proof.as_ref().map(|p| p.serialize()).unwrap_or_default());
+            ref_bytes(&mut out, &o.witness.rangeproof.as_ref().map(|p| p.serialize()).unwrap_or_default());
+        }
+    }
+    out
+}
+/// generated inputs are canonical except for the coinbase index carrying a flag; this says whether `ref_tx(tx)` must be accepted
+pub fn tx_is_canonical(tx: &Transaction) -> bool {
+    tx.input.iter().all(|i| {
+        let has_issuance = !(i.asset_issuance.amount.is_null() && i.asset_issuance.inflation_keys.is_null());
+        let v = i.previous_output.vout;
+        (v < (1 << 30) && !(v == 0x3fff_ffff && i.is_pegin && has_issuance)) || (v == 0xffff_ffff && !i.is_pegin && !has_issuance)
+    })
 }
